@@ -248,15 +248,15 @@ func (a *hubAnchors) shutdownGate(r *core.Report, rule string) core.EdgeFilter {
 		return nil
 	}
 	flags := map[*types.Var]bool{}
-	core.EachInstr(sd, func(in ssa.Instruction) {
-		if f, b, v := core.StoredField(in); f != nil && core.NamedOf(b.Type()) == a.hub && isBoolConst(v, true) {
+	eachInstrWithCallees(p, sd, "hub", 2, func(in ssa.Instruction) {
+		if f, b, v := core.StoredField(in); f != nil && b != nil && core.NamedOf(b.Type()) == a.hub && isBoolConst(v, true) {
 			flags[f] = true
 		}
 	})
 	// the flag must not be set true or cleared anywhere else (except construction)
 	for f := range flags {
 		for _, s := range core.Sites(a.fns, func(in ssa.Instruction) bool { return core.IsFieldStore(in, f) }) {
-			if s.Fn != sd {
+			if s.Fn != sd && !withinOp(p, s.Fn, sd, 2) {
 				delete(flags, f)
 			}
 		}
@@ -356,7 +356,8 @@ func checkC10(p *core.Program, r *core.Report) {
 			return (mClose != nil && core.IsInvokeOf(in, mClose)) || (mMdnsSd != nil && core.IsInvokeOf(in, mMdnsSd))
 		}
 		key := "Shutdown sets the flag before it tears anything down"
-		if bad := core.PathSearch(sd, nil, isTearDown, isSet, nil); bad != nil {
+		setsFlag := core.NewMust(p, 2, isSet)
+		if bad := core.PathSearch(sd, nil, isTearDown, setsFlag.Instr, nil); bad != nil {
 			r.Fail(R4, key, p.Pos(bad.Pos()), "Shutdown closes connections / stops mDNS on a path on which the shut-down flag is not set yet: every closed connection makes the hub re-announce and look at the known mDNS entries again, and the dial gate still lets those attempts through")
 		} else {
 			r.OK(R4, key, p.Pos(sd.Pos()), "flag first")
@@ -375,6 +376,9 @@ func checkC10(p *core.Program, r *core.Report) {
 	importRules(p, r, "C18", map[string]string{"C18.R3 one-total-mapping": R8}, func(key string) bool {
 		return strings.Contains(key, "maps to Queued") || strings.Contains(key, "mapping total")
 	})
+	const R10 = "C10.R10 every-connection-is-registered"
+	r.Rule(R10, "every constructed connection is run and stored in the registry unconditionally (shared with C05.R4): a connection that is kept but never stored cannot be found by unregister, disconnect, cancel or shutdown")
+	importRules(p, r, "C05", map[string]string{"C05.R4 construct-run-register": R10}, nil)
 	const R9 = "C10.R9 unregister-finds-the-live-connection"
 	r.Rule(R9, "a closing connection removes the registry entry only if the entry is its own (shared with C11.R3): otherwise the end of a superseded connection unregisters the surviving one, and a later unregister / disconnect cannot close it")
 	importRules(p, r, "C11", map[string]string{"C11.R3 registry-identity-atomic": R9}, nil)
@@ -701,6 +705,49 @@ func checkRevocation(p *core.Program, r *core.Report, R2, R3 string) {
 			walkLookup(p, recv, fConns, 3, &ok)
 			return ok
 		}
+		// "with the registered connection do f": a hub helper that looks the connection up and applies the function
+		// literal it is given, which in turn calls the method on its parameter
+		direct := pred
+		pred = func(in ssa.Instruction) bool {
+			if direct(in) {
+				return true
+			}
+			c, ok := in.(*ssa.Call)
+			if !ok {
+				return false
+			}
+			helper := c.Call.StaticCallee()
+			if helper == nil || helper.Blocks == nil || p.PkgShort(helper) != "hub" {
+				return false
+			}
+			for i, a := range c.Call.Args {
+				cl := core.ClosureArg(a)
+				if cl == nil || len(cl.Params) == 0 || i >= len(helper.Params) {
+					continue
+				}
+				// the literal calls the method on its parameter on every path
+				if core.MustPass(cl, nil, func(x ssa.Instruction) bool {
+					return core.IsInvokeOf(x, m) && core.Common(x).Value == ssa.Value(cl.Params[len(cl.Params)-1])
+				}, nil) != nil {
+					continue
+				}
+				// the helper applies its function parameter to the registered connection whenever there is one
+				fp := helper.Params[i]
+				applies := func(x ssa.Instruction) bool {
+					cc, ok := x.(*ssa.Call)
+					if !ok || cc.Call.Value != ssa.Value(fp) || len(cc.Call.Args) == 0 {
+						return false
+					}
+					ok2 := false
+					walkLookup(p, cc.Call.Args[len(cc.Call.Args)-1], fConns, 3, &ok2)
+					return ok2
+				}
+				if core.MustPass(helper, nil, applies, connNilEdge(helper)) == nil {
+					return true
+				}
+			}
+			return false
+		}
 		mustConn := core.NewMust(p, 2, pred)
 		mustConn.Removed = connNilEdge(fn)
 		if bad := core.MustPass(fn, nil, mustConn.Instr, connNilEdge(fn)); bad != nil {
@@ -710,5 +757,15 @@ func checkRevocation(p *core.Program, r *core.Report, R2, R3 string) {
 		}
 	}
 	effects(unreg, R2, "CloseConnection")
+	{
+		mCloseC := p.IfaceMethod("api", "ShipConnectionInterface", "CloseConnection")
+		key := "hub.Hub.UnregisterRemoteSKI revokes trust before it closes the connection"
+		clears := core.NewMust(p, 2, isSetTrustedFalse)
+		if bad := core.PathSearch(unreg, nil, func(in ssa.Instruction) bool { return mCloseC != nil && core.IsInvokeOf(in, mCloseC) }, clears.Instr, nil); bad != nil {
+			r.Fail(R2, key, p.Pos(bad.Pos()), "the connection is closed while the SKI is still trusted: closing a connection that is still in its handshake is synchronous and runs the application's disconnect callback and the re-announce - an inbound reconnect of that SKI in this window is judged trusted and completes, and stays open after the unregister returns")
+		} else {
+			r.OK(R2, key, p.Pos(unreg.Pos()), "SetTrusted(false) precedes CloseConnection on every path")
+		}
+	}
 	effects(cancel, R3, "AbortPendingHandshake")
 }
